@@ -119,6 +119,14 @@ mod verif_c07 {
         }
         assert_eq!(readers(&e), 0);
         unsafe { assert!(N_READ_ACQ == N_READ_REL && N_READ_ACQ >= 1 && N_WRITE_ACQ == 0); }
+        // short reads (copied / cloned) go through the lock as well: exactly one acquire + release each
+        let before = unsafe { N_READ_ACQ };
+        let c = th.copied();
+        assert!(c.0 .0 == a && c.0 .1 == b);
+        unsafe { assert!(N_READ_ACQ == before + 1 && N_READ_REL == before + 1, "Handle::copied read the value without holding the read lock"); }
+        let c2 = th.cloned();
+        assert!(c2.0 .1 == b);
+        unsafe { assert!(N_READ_ACQ == before + 2 && N_READ_REL == before + 2, "Handle::cloned read the value without holding the read lock"); }
         kani::cover!(shape == 3);
         kani::cover!(shape == 6);
         std::mem::forget(e);
@@ -126,7 +134,7 @@ mod verif_c07 {
 
     // (b) write(): everything observable changes strictly inside the write section, the old value
     //     is dropped after the lock is released
-    // @h name=c07_write_section tier=quick props=C07,C06
+    // @h name=c07_write_section tier=quick props=C07,C06,C13
     #[kani::proof]
     #[kani::unwind(4)]
     fn c07_write_section() {
@@ -174,7 +182,7 @@ mod verif_c07 {
     }
 
     // (c) a write attempted while a read guard lives blocks before touching anything
-    // @h name=c07_write_blocks_under_guard tier=quick props=C07
+    // @h name=c07_write_blocks_under_guard tier=quick props=C07,C13
     #[kani::proof]
     #[kani::unwind(4)]
     fn c07_write_blocks_under_guard() {
